@@ -176,6 +176,8 @@ def run(ctx):
                     if op[0] == "open" and r[0] == "ok":
                         h = op[1]
                         if "w" in op[3] or "a" in op[3]:
+                            opened = tree_sig(ir.walk())         # the tree once the handle is open (a new / emptied file is there)
+                            changed_by_success = False
                             free_now = free_clusters(ir)
                             wop = ["write", h, (b"W" * ((free_now + 1) * bpc)).hex()]
                             r2, _ = ir.op(wop)
@@ -184,13 +186,31 @@ def run(ctx):
                                 # the refused request must not spoil a smaller one that fits
                                 wop2 = ["write", h, (b"w" * bpc).hex()]
                                 r2b, _ = ir.op(wop2)
+                                changed_by_success = r2b[0] == "ok"
                                 if r2b[0] == "err":
                                     ctx.violation(f"{label}: after a write of {free_now + 1} clusters was refused (ENOSPC, {free_now} free), a 1-cluster write is refused too: {r2b[1]}",
                                                   f"followup-refused:write:{r2b[1]}", dict(volume=meta, ops=[o[:3] if o[0] != 'write' else [o[0], o[1], '<data>'] for o in done[-20:]] + [op, wop[:2], wop2[:2]]))
                             top = ["truncate", h, 2 ** 32 + 5]
                             r3, _ = ir.op(top)
                             extra.append((top, r3))
-                        ir.op(["hclose", h])
+                            ir.op(["hclose", h])
+                            # a write and a truncate through the handle were both refused, nothing else succeeded: sizes and contents are
+                            # exactly what they were when the handle was opened, and everything can still be read (C09-m6)
+                            if r2[0] == "err" and r3[0] == "err" and not changed_by_success:
+                                rep_h = dict(volume=meta, ops=[o[:3] if o[0] != 'write' else [o[0], o[1], '<data>'] for o in done[-20:]] + [op, wop[:2], top])
+                                try:
+                                    closed_sig = tree_sig(ir.walk())
+                                except Exception as e:  # noqa
+                                    ctx.violation(f"{label}: after a refused write ({r2[1]}) and truncate ({r3[1]}) through {op[2]!r} the tree cannot be read: {type(e).__name__}: {e}",
+                                                  f"fail-wedged:write:{r2[1]}", rep_h)
+                                    break
+                                if closed_sig != opened:
+                                    dd = sorted(set(closed_sig.items()) ^ set(opened.items()))[:3]
+                                    ctx.violation(f"{label}: a refused write ({r2[1]}) and truncate ({r3[1]}) through {op[2]!r} changed the visible tree: {dd[0][0]!r}",
+                                                  f"fail-tree-changed:write:{r2[1]}", dict(rep_h, diff=str(dd)))
+                                    break
+                        if h in ir.handles:
+                            ir.op(["hclose", h])
                     shown = [o if o[0] != "write" else ["write", o[1], f"<{len(o[2]) // 2} bytes>"] for o in done[-40:]] + [op]
                     ctx.dist[f"{op[0]}:{r[1] if r[0] == 'err' else 'ok'}"] += 1
                     if r[0] == "err":
